@@ -362,8 +362,9 @@ impl Color3f<Hsl> {
 
         rgb.map(|ch| {
             let ch = ch + m;
-            debug_assert!(0.0 <= ch && ch <= 1.0, "channel oob: {ch:?}");
-            ch
+            debug_assert!(-1e-6 <= ch && ch <= 1.0 + 1e-6, "channel oob: {ch:?}");
+            // `m` is a difference of rounded terms and may come out as -1e-8
+            ch.clamp(0.0, 1.0)
         })
         .into()
     }
